@@ -17,7 +17,8 @@ MsgAll == {"plain", "leadspace", "slashes", "blockcm", "placeholders", "escquote
            "validref", "validref0", "validrefmax", "bracketnoref", "unicodefirst"}
 MsgFew == {"plain", "validref", "leadspace", "unicodefirst"}
 LayoutsAll == {"tight", "space", "newline", "crlf", "blockcomment", "linecomment", "tabs", "formfeed", "unicodews"}
-ContextsAll == {"linestart", "indent", "brace", "arrow", "return", "letunderscore", "afterstring", "aftermultibyte", "break", "tabindent", "afterstmt", "afterurl"}
+ContextsAll == {"linestart", "indent", "brace", "arrow", "return", "letunderscore", "afterstring", "aftermultibyte", "break", "tabindent", "afterstmt", "afterurl",
+                "afterrawstring", "afterrawbackslash", "afterbytechar", "afterlifetime"}
 DirsAll == {"none", "ignore", "nokvp"}
 BothModes == {"structured", "unstructured"}
 =============================================================================
